@@ -136,6 +136,52 @@ def macro_param_flow(ctx, rule):
     return n
 
 
+def ctor_with_defaults(M, t):
+    """Constructor term with every parameter spelled out: positional arguments named, omitted ones filled from the __init__ defaults."""
+    if not (isinstance(t, tuple) and t and t[0] == "ctor"):
+        return t
+    cls, args, kw = t[1], t[2], dict(t[3])
+    args = tuple(ctor_with_defaults(M, a) for a in args)
+    kw = {k: ctor_with_defaults(M, v) for k, v in kw.items()}
+    try:
+        sig = M.init_signature(cls)
+    except Exception:
+        sig = None
+    if sig is None:
+        return ("ctor", cls, args, tuple(sorted(kw.items())))
+    names = [a.arg for a in sig.args][1:]
+    full = dict(zip(names, args))
+    full.update(kw)
+    for nm, dv in zip(reversed(names), reversed(sig.defaults)):
+        if nm not in full:
+            try:
+                full[nm] = N.const(ast.literal_eval(dv))
+            except Exception:
+                full[nm] = ("free", ast.unparse(dv))
+    return ("ctor", cls, (), tuple(sorted(full.items())))
+
+
+def string_macro_expansions(ctx, rule):
+    """CString / PaddedString / PascalString / GreedyString wrap exactly the documented delimiter constructs (compared with all constructor
+    parameters spelled out, so an explicit default is neutral and a changed flag -- e.g. require=False -- is not)."""
+    M = ctx.model
+    enc = ("param", "encoding")
+    unit = ("call", ("free", "encodingunit"), (enc,), ())
+    GB = ("free", "GreedyBytes")
+    wants = {
+        "CString": ("ctor", "StringEncoded", (("ctor", "NullTerminated", (GB,), (("term", unit),)), enc), ()),
+        "PaddedString": ("ctor", "StringEncoded", (("ctor", "FixedSized", (("param", "length"), ("ctor", "NullStripped", (GB,), (("pad", unit),))), ()), enc), ()),
+        "PascalString": ("ctor", "StringEncoded", (("ctor", "Prefixed", (("param", "lengthfield"), GB), ()), enc), ()),
+        "GreedyString": ("ctor", "StringEncoded", (GB, enc), ()),
+    }
+    for name, want in wants.items():
+        fi = M.function(name)
+        paths = paths_of(ctx, fi)
+        w = ctor_with_defaults(M, want)
+        ok = all(ctor_with_defaults(M, p.retval) == w for p in paths if p.returns) and any(p.returns for p in paths)
+        ctx.ob(rule, fi, ok, "%s expands to %s" % (name, N.show(want)), key="%s expansion" % name)
+
+
 def unit_table_check(ctx, rule):
     """possiblestringencodings gives every supported encoding its code-unit width (the width of the terminator CString looks for)."""
     M = ctx.model
@@ -242,20 +288,7 @@ def run(ctx):
     ctx.ob("C03.R2", fi, ok, "encodingunit returns bytes(unit): that many zero bytes", key="encodingunit")
     rais = [p for p in paths if p.outcome[0] == "raise"]
     ctx.ob("C03.R2", fi, len(rais) == 1 and rais[0].outcome[1].get("cls") == "StringError", "an unsupported encoding is a StringError", key="encodingunit reject")
-    enc = ("param", "encoding")
-    unit = ("call", ("free", "encodingunit"), (enc,), ())
-    GB = ("free", "GreedyBytes")
-    wants = {
-        "CString": ("ctor", "StringEncoded", (("ctor", "NullTerminated", (GB,), (("term", unit),)), enc), ()),
-        "PaddedString": ("ctor", "StringEncoded", (("ctor", "FixedSized", (("param", "length"), ("ctor", "NullStripped", (GB,), (("pad", unit),))), ()), enc), ()),
-        "PascalString": ("ctor", "StringEncoded", (("ctor", "Prefixed", (("param", "lengthfield"), GB), ()), enc), ()),
-        "GreedyString": ("ctor", "StringEncoded", (GB, enc), ()),
-    }
-    for name, want in wants.items():
-        fi = M.function(name)
-        paths = paths_of(ctx, fi)
-        ok = all(p.retval == want for p in paths if p.returns) and any(p.returns for p in paths)
-        ctx.ob("C03.R2", fi, ok, "%s expands to %s" % (name, N.show(want)), key="%s expansion" % name)
+    string_macro_expansions(ctx, "C03.R2")
     ctx.floor("C03.R2", 7)
 
     # ---------------------------------------------------------------- R3
